@@ -63,6 +63,10 @@ impl Fam {
         }
         let k = if name == "scaled" {
             *rng.pick(&[-120, -100, -90, -80, -70, 70, 80, 100, 110])
+        } else if name == "tiny" {
+            // an integer grid with spacing 2^k: squared distances stay exactly representable (and
+            // far from under/overflow) in both scalar types, but are of the order 1e-7 … 1e-12
+            *rng.pick(&[-11, -13, -16, -20])
         } else {
             0
         };
@@ -80,6 +84,10 @@ impl Fam {
         let tag = ctx.tri.tag();
         match self.name.as_str() {
             "grid" => (rng.range(0, self.n - 1) as f64, rng.range(0, self.n - 1) as f64),
+            "tiny" => {
+                let sc = 2f64.powi(self.k);
+                (rng.range(0, 7) as f64 * sc, rng.range(0, 7) as f64 * sc)
+            }
             "line" => {
                 // points on a common line through grid points, rarely off it
                 let t = rng.range(0, 9) as f64;
@@ -208,6 +216,10 @@ impl Fam {
             }
             "circle" => (rng.range(-10, 10) as f64, rng.range(-10, 10) as f64),
             "scaled" => {
+                let sc = 2f64.powi(self.k);
+                ((rng.range(-4, 20) as f64 / 2.0 - 2.0) * sc, (rng.range(-4, 20) as f64 / 2.0 - 2.0) * sc)
+            }
+            "tiny" => {
                 let sc = 2f64.powi(self.k);
                 ((rng.range(-4, 20) as f64 / 2.0 - 2.0) * sc, (rng.range(-4, 20) as f64 / 2.0 - 2.0) * sc)
             }
@@ -1021,7 +1033,8 @@ pub fn history(mode: &str, idx: u64, rng: &mut Rng, thorough: bool, timeout_ms: 
             let fams: &[&str] = match mode {
                 "vor" => &["grid", "grid", "unif", "circle", "offset"],
                 "interp" => &["grid", "grid", "unif", "circle"],
-                "shape" | "line" | "nn" => &["grid", "grid", "grid", "line", "circle", "unif"],
+                "nn" => &["grid", "grid", "grid", "line", "circle", "unif", "tiny", "tiny"],
+                "shape" | "line" => &["grid", "grid", "grid", "line", "circle", "unif"],
                 _ => &["grid", "grid", "line", "circle", "unif", "neardeg", "magn", "scaled", "wide"],
             };
             let fam = Fam::choose(rng, fams);
